@@ -222,7 +222,7 @@ func genAll(w *bufio.Writer, seed uint64, tier string) {
 	}
 
 	// ---- (4) the key cache: every script over the step alphabet
-	steps := []string{"get", "pin:1", "pin:2", "rot", "exp", "fail"}
+	steps := []string{"get", "pin:1", "pin:2", "rot", "exp", "fail", "tfail"}
 	maxLen, maxExp := 4, 2
 	if thorough {
 		maxLen, maxExp = 5, 3
@@ -258,7 +258,7 @@ func genAll(w *bufio.Writer, seed uint64, tier string) {
 		cur := make([]string, n)
 		nexp := 0
 		for j := range cur {
-			cur[j] = []string{"get", "get", "pin:1", "pin:2", "pin:3", "rot", "exp", "fail"}[rng.Intn(8)]
+			cur[j] = []string{"get", "get", "pin:1", "pin:2", "pin:3", "rot", "exp", "fail", "tfail"}[rng.Intn(9)]
 			if cur[j] == "exp" {
 				nexp++
 				if nexp > 3 {
